@@ -174,7 +174,11 @@ def let_table(body_thir):
     for a in walk(body_thir):
         if isinstance(a, dict) and a.get("k") in ("Assign", "AssignOp"):
             v = leftmost_var(a["l"])
-            if v is not None and strip(a["l"]).get("k") == "Var":
+            if v is not None:
+                assigned.add(v["id"])
+        elif isinstance(a, dict) and a.get("k") in ("Borrow", "RawBorrow") and a.get("mut"):
+            v = leftmost_var(a["e"])          # `&mut x` (e.g. the receiver of x.push(..)): x changes after its `let`
+            if v is not None:
                 assigned.add(v["id"])
     tab = {}
     for s in walk(body_thir):
